@@ -23,6 +23,7 @@ import contextlib
 import io
 import os
 import re
+import signal
 import time
 import zlib
 
@@ -325,12 +326,23 @@ def shares(res, a):
     return False
 
 
+CASE_TIMEOUT = 30.0
+
+
+class CaseTimeout(Exception):
+    pass
+
+
+def _on_alarm(signum, frame):
+    raise CaseTimeout("call did not return within %.0f s" % CASE_TIMEOUT)
+
+
 NO_SPECIAL = {"cov", "cor", "coef", "diag", "sx", "uniq", "uniq_sorted", "int", "flag", "pofx", "grid", "mean3", "wcsrec", "strs"}
-SPECIALS = [-0.0, float("nan"), float("inf"), 5e-324, float("-inf")]
+SPECIALS = [-0.0, float("nan"), 5e-324, -5e-324]        # no infinities: atbound-style `while lon > max` loops never end on them
 
 
 def put_special(a):
-    """-0.0, NaN, +-inf, the smallest denormal in the first elements of every float (sub)field: "bit-for-bit unchanged" includes them"""
+    """-0.0, NaN, the smallest denormals in the first elements of every float (sub)field: "bit-for-bit unchanged" includes them"""
     import numpy as np
     if a.dtype.names is not None:
         for n in a.dtype.names:
@@ -361,15 +373,17 @@ def forms(d, full):
                  the caller's array now raises "... read-only"; such an exception is reported as a failing input
          alias0 / alias1   the SAME array object is passed for every (non-exempt) array parameter (the first / the last one's)
          reversed layout   a view with negative strides
-         special -0.0, NaN, +-inf and the smallest denormal in the first elements of every float array / float field
+         special -0.0, NaN and the smallest denormals in the first elements of every float array / float field
          len1    length-1 arrays;  long  4099 elements (thorough only)
          unsigned / bool dtypes where the driver takes plain numeric arrays"""
     dt0, nd0 = d["dt"][0], d["nd"][0]
     nd1 = 1 if 1 in d["nd"] else nd0
     orders = ["native", "swapped"] + (["mixed"] if d["dt"] == drv.REC else [])
-    out = [(dt0, "native", "contig", nd0, "ro"), (dt0, "swapped", "strided", nd1, "ro")]
+    out = [(dt0, "native", "contig", nd0, "ro")]
+    if full:
+        out.append((dt0, "swapped", "strided", nd1, "ro"))
     if n_checked(d) >= 2:
-        out += [(dt0, "native", "contig", nd1, "alias0"), (dt0, "native", "contig", nd1, "alias1")]
+        out += [(dt0, "native", "contig", nd1, "alias0")] + ([(dt0, "native", "contig", nd1, "alias1")] if full else [])
     if nd1 >= 1:
         out.append((dt0, "native", "reversed", nd1, "plain"))
     out.append((dt0, "native", "contig", nd1, "special"))
@@ -379,7 +393,6 @@ def forms(d, full):
         out.append((dt0, "native", "contig", 1, "len1"))
     if d["dt"] == drv.NUM:
         out.append(("u2", "native", "contig", nd1, "plain"))
-        out.append(("b1", "native", "contig", nd1, "plain"))
     if full:
         out += [(dt, o, lay, nd, "ro") for dt in d["dt"] for o in orders for lay in ("contig", "strided", "reversed") for nd in d["nd"]]
         out += [(dt, o, "reversed", nd, "plain") for dt in d["dt"] for o in orders for nd in d["nd"]]
@@ -412,6 +425,9 @@ def variants(d, ctx, full):
     if len(d["dt"]) > 1:
         must.append((d["dt"][1], "swapped", "contig", d["nd"][0], "plain"))
         must.append((d["dt"][-1], "native", "strided", d["nd"][0], "plain"))
+        # the no-conversion corner exists once per dtype: a function called with dtype='f4' converts everything but native float32
+        for dt in d["dt"][1:]:
+            must.append((dt, "native", "contig", 1 if 1 in d["nd"] else d["nd"][0], "plain"))
     must = list(dict.fromkeys(must))
     rest = [v for v in allv if v not in must]
     r.shuffle(rest)
@@ -504,11 +520,16 @@ class Dyn(Entry):
         err = None
         res = None
         sink = io.StringIO()
+        old_handler = signal.signal(signal.SIGALRM, _on_alarm)
+        signal.setitimer(signal.ITIMER_REAL, CASE_TIMEOUT)        # a python-level endless loop on odd inputs must not hang the check
         try:
             with contextlib.redirect_stdout(sink), contextlib.redirect_stderr(sink), np.errstate(all="ignore"):
                 res = self.fn(d)(**args)      # noqa: F841  (kept alive until the snapshots are taken)
         except Exception as e:  # an exception is not a mutation; it is recorded
             err = "%s: %s" % (type(e).__name__, str(e)[:200])
+        finally:
+            signal.setitimer(signal.ITIMER_REAL, 0)
+            signal.signal(signal.SIGALRM, old_handler)
         after = {p: snapshot(args[p]) for p in arr}
         out = {"error": err, "args": {}, "exempt_changed": []}
         # a refused write into a read-only argument: without the flag the call would have modified the caller's array
@@ -611,12 +632,12 @@ def extract_all(ctx):
 
 
 def static_step(ctx, only=None):
-    """one kernel-checked lemma `frame_ok sk ps = true` per (function, valuation)"""
+    """one kernel evaluation `frame_ret sk ps ret` per (function, valuation): head 0 <-> frame_ok sk ps = true"""
     t0 = time.time()
     ex = extract_all(ctx)
     TIMES["static:extract"] = round(time.time() - t0, 1)
     t0 = time.time()
-    names, lemmas = [], []
+    names = []
     for d in drv.DRIVERS:
         if (only and d["name"] not in only) or d["name"] in SKIP:
             continue
@@ -630,72 +651,57 @@ def static_step(ctx, only=None):
             STATIC_OK[d["name"]] = True      # every array argument is exempt: nothing to prove
             continue
         names.append(d["name"])
+    # ONE evaluation per driver (Exec.frame_ret, ExecProofs.frame_ret_ok): the frame obligation, the reason when it fails, and the
+    # alias part of the model (which parameters may the RETURN VALUE share memory with)
+    evn, terms = [], []
+    for n in names:
+        r = ex[n]
         if "error" in r:
-            lemmas.append(("False", "idtac."))       # fail closed
-        else:
-            lemmas.append(("frame_ok %s [%s] = true" % (r["coq"], "; ".join(map(str, r["params"]))), "vm_compute. reflexivity."))
-    results = core.coq_lemmas(os.path.join(ctx.work, "static"), PRE_STATIC + "Open Scope positive_scope.\n", lemmas, shard=10, tag="frame")
-    ctx.checker_cmds.append("coqc <generated frame_ok lemmas, one per (function, valuation), vm_compute>")
-    TIMES["static:coq_lemmas"] = round(time.time() - t0, 1)
-    failed = []
-    for n, (ok, msg) in zip(names, results):
+            continue                      # fail closed below
+        rid = [k for k, v in r["names"].items() if v == "0:<ret>"]
+        inv_names = {v: k for k, v in r["names"].items()}
+        PARAM_ID[n] = {p: inv_names["0:" + p] for p in r["checked"] if "0:" + p in inv_names}
+        evn.append(n)
+        terms.append("frame_ret %s [%s] %d" % (r["coq"], "; ".join(map(str, r["params"])), rid[0] if rid else 1))
+    vals_by = {}
+    uniq = list(dict.fromkeys(terms))        # drivers that differ only in a value the skeleton does not see (a delimiter) share one term
+    ctx.count("static:distinct_terms", len(uniq))
+    try:
+        uvals = dict(zip(uniq, core.coq_eval(os.path.join(ctx.work, "static"), PRE_STATIC + "Open Scope positive_scope.\n", uniq, ty="list Z",
+                                             shard=6, tag="frame")))
+        for n, t in zip(evn, terms):
+            vals_by[n] = [int(x.replace("%Z", "").strip("() ")) for x in uvals[t].strip("[]").split(";") if x.strip()]
+    except core.CoqEvalError as e:
+        ctx.notes.append("generated static obligations do not evaluate: " + str(e)[-600:])
+    ctx.checker_cmds.append("coqc <generated: frame_ret skeleton params ret, one per (function, valuation), vm_compute; head 0 = frame_ok holds>")
+    TIMES["static:coq_eval"] = round(time.time() - t0, 1)
+    failed, why = [], {}
+    for n in names:
         d = BY_NAME[n]
-        STATIC_OK[n] = bool(ok)
+        nums = vals_by.get(n)
+        ok = bool(nums) and nums[0] == 0
+        STATIC_OK[n] = ok
+        RET_STATIC[n] = nums[1:] if ok else []
         ctx.obligation("frame_ok %s  {%s | %s | unchanged: %s}" % (n, d["func"], d["valuation"] or "default options", ",".join(ex[n]["checked"])), ok)
         ctx.count("static:%s" % ("discharged" if ok else "FAILED"))
         if not ok:
             failed.append(n)
-    # the alias part of the model: which parameters may the RETURN VALUE of each driver share memory with?
-    t0 = time.time()
-    okn = [n for n in names if STATIC_OK.get(n) and "error" not in ex[n]]
-    terms, okn2 = [], []
-    for n in okn:
-        r = ex[n]
-        rid = [k for k, v in r["names"].items() if v == "0:<ret>"]
-        inv_names = {v: k for k, v in r["names"].items()}
-        PARAM_ID[n] = {p: inv_names["0:" + p] for p in r["checked"] if "0:" + p in inv_names}
-        if not rid:
-            RET_STATIC[n] = []           # the driver returns nothing
-            continue
-        okn2.append(n)
-        terms.append("ret_alias %s [%s] %d" % (r["coq"], "; ".join(map(str, r["params"])), rid[0]))
-    try:
-        vals = core.coq_eval(os.path.join(ctx.work, "retalias"), PRE_STATIC + "Open Scope positive_scope.\n", terms, ty="list Z", shard=10, tag="ret")
-        for n, v in zip(okn2, vals):
-            RET_STATIC[n] = [int(x.replace("%Z", "").strip("() ")) for x in v.strip("[]").split(";") if x.strip()]
-        ctx.obligation("ret_alias evaluated for %d drivers" % len(okn2), True)
-    except core.CoqEvalError as e:
-        ctx.obligation("ret_alias evaluated for %d drivers" % len(okn2), False, str(e)[-400:])
-        for n in okn2:
-            RET_STATIC[n] = [int(k) for k in ex[n]["params"]]       # no prediction: everything allowed
-    ctx.count("ret_alias:drivers_whose_result_may_alias_an_argument", sum(1 for n in okn2 if RET_STATIC.get(n)))
+            nm = ex[n].get("names", {})
+            if "error" in ex[n]:
+                why[n] = "extractor crashed: " + ex[n]["error"]
+            elif not nums:
+                why[n] = "the obligation did not evaluate"
+            elif nums[0] == 1:
+                why[n] = "write through %s, which may alias parameter(s) %s" % (nm.get(nums[1]), [nm.get(i) for i in nums[2:]])
+            elif nums[0] == 2:
+                why[n] = "loop analysis did not stabilise within the fuel"
+            else:
+                why[n] = "frame_ret = %s" % nums
+    ctx.count("ret_alias:drivers_whose_result_may_alias_an_argument", sum(1 for n in names if RET_STATIC.get(n)))
     st = os.environ.get("C15_SELFTEST", "")
     if st.startswith("drop-ret:"):          # self-test of the alias correspondence: forget the prediction for one driver
         RET_STATIC[st.split(":", 1)[1]] = []
         ctx.notes.append("SELFTEST: predicted return aliases of %s dropped" % st.split(":", 1)[1])
-    TIMES["static:ret_alias"] = round(time.time() - t0, 1)
-    # why did it fail?
-    why = {}
-    if failed:
-        terms = ["diag %s [%s]" % (ex[n]["coq"], "; ".join(map(str, ex[n]["params"]))) for n in failed if "error" not in ex[n]]
-        fn = [n for n in failed if "error" not in ex[n]]
-        try:
-            vals = core.coq_eval(os.path.join(ctx.work, "diag"), PRE_STATIC + "Open Scope positive_scope.\n", terms, ty="list Z", shard=10, tag="diag")
-            for n, v in zip(fn, vals):
-                nums = [int(x.replace("%Z", "").strip("() ")) for x in v.strip("[]").split(";") if x.strip()]
-                nm = ex[n]["names"]
-                if nums[:1] == [1]:
-                    why[n] = "write through %s, which may alias parameter(s) %s" % (nm.get(nums[1]), [nm.get(i) for i in nums[2:]])
-                elif nums[:1] == [2]:
-                    why[n] = "loop analysis did not stabilise within the fuel"
-                else:
-                    why[n] = "diag = %s" % nums
-        except core.CoqEvalError as e:
-            for n in fn:
-                why[n] = "diag failed: %s" % str(e)[-300:]
-        for n in failed:
-            if "error" in ex[n]:
-                why[n] = "extractor crashed: " + ex[n]["error"]
     # notes of the extractor, C entry points used
     allnotes, cent = {}, set()
     for n, r in ex.items():
